@@ -38,21 +38,27 @@ static uint8_t *name_block(uint8_t *dat, size_t dlen, int explicit_len, long len
 static item_group *groups[MAXID];
 static item_array<metatype> *arrays[MAXID];
 
+/* identifiers that are the base of a stand-alone item<metatype> (exact-size storage, placement new) */
+static item<metatype> *items[MAXID];
+
 static void drop_holder(size_t k)
 {
 	in_lib = (int) k;
 	if (groups[k]) groups[k]->unref();
 	if (arrays[k]) delete arrays[k];
+	if (items[k]) { items[k]->~item<metatype>(); }
 	in_lib = -1;
+	if (items[k]) __real_free(items[k]);
 	groups[k] = 0;
 	arrays[k] = 0;
+	items[k] = 0;
 	slots[k].id = 0;
 }
 static void drop_groups(void)
 {
 	size_t k;
 	for (k = 0; k < nslot; k++) {
-		if (!groups[k] && !arrays[k]) continue;
+		if (!groups[k] && !arrays[k] && !items[k]) continue;
 		drop_holder(k);
 		reap((int) k);
 	}
@@ -193,7 +199,94 @@ int main(void)
 			arrays[k] = arr;
 			result("ok");
 		}
-		else if (!strcmp(op, "free") && drv_nw == 3 && !parse_slot(drv_w[2], &k) && (groups[k] || arrays[k])) {
+		else if (!strcmp(op, "inew") && drv_nw == 2) {
+			/* item<metatype>() in storage of exactly sizeof(item): its identifier has 24 bytes */
+			if (nslot >= MAXID) { puts("bad-op"); continue; }
+			void *mem = __real_malloc(sizeof(item<metatype>));
+			memset(mem, 0xa5, sizeof(item<metatype>));
+			item<metatype> *it = new (mem) item<metatype>();
+			k = (size_t) new_slot(static_cast<identifier *>(it), 0, RAWID(static_cast<identifier *>(it))->_max + 4u);
+			items[k] = it;
+			result("ok");
+		}
+		else if (!strcmp(op, "icopy") && drv_nw == 3) {
+			/* item<metatype>(const item &): the identifier base is copy-constructed (16 bytes of it are used) */
+			if (parse_slot(drv_w[2], &j) || !items[j] || nslot >= MAXID) { puts("bad-op"); continue; }
+			void *mem = __real_malloc(sizeof(item<metatype>));
+			memset(mem, 0xa5, sizeof(item<metatype>));
+			in_lib = (int) nslot;
+			item<metatype> *it = new (mem) item<metatype>(*items[j]);
+			in_lib = -1;
+			k = (size_t) new_slot(static_cast<identifier *>(it), 0, RAWID(static_cast<identifier *>(it))->_max + 4u);
+			items[k] = it;
+			result("ok");
+		}
+		else if (!strcmp(op, "iassign") && drv_nw == 4) {
+			/* item::operator=(const item &) */
+			if (parse_slot(drv_w[2], &k) || parse_slot(drv_w[3], &j) || !items[k] || !items[j]) { puts("bad-op"); continue; }
+			in_lib = (int) k;
+			*items[k] = *items[j];
+			in_lib = -1;
+			result("ok");
+		}
+		else if (!strcmp(op, "gclear") && drv_nw == 4) {
+			/* item_group: items with names of the given lengths (item i: byte 0x61+i repeated), the listed items are removed
+			 * one after the other with group::clear(ref) (which compacts the array when more than half of it is unused);
+			 * the names of the items that stay, and what the group leaves allocated after its release */
+			size_t lens[8], order[8], nl = 0, no = 0, i;
+			metatype *mt[8];
+			char *p;
+			int bad = 0;
+			for (p = drv_w[2]; p && !bad; ) {
+				char *c = strchr(p, ',');
+				if (c) *c = 0;
+				if (nl >= 8 || (p[0] == '0' && p[1]) || drv_parse_nat(p, &lens[nl]) || lens[nl] > 5000) bad = 1; else ++nl;
+				p = c ? c + 1 : 0;
+			}
+			for (p = drv_w[3]; p && !bad && strcmp(drv_w[3], "-"); ) {
+				char *c = strchr(p, ',');
+				if (c) *c = 0;
+				if (no >= 8 || (p[0] == '0' && p[1]) || drv_parse_nat(p, &order[no]) || order[no] >= nl) bad = 1;
+				else { for (i = 0; i < no; i++) if (order[i] == order[no]) bad = 1; ++no; }
+				p = c ? c + 1 : 0;
+			}
+			if (bad || !nl) { puts("bad-op"); continue; }
+			in_lib = MAXID;
+			item_group *g = new item_group;
+			for (i = 0; i < nl; i++) {
+				identifier tmp;
+				char *nm = (char *) __real_malloc(lens[i] + 1);
+				memset(nm, 0x61 + (int) i, lens[i]);
+				nm[lens[i]] = 0;
+				tmp.set_name(nm, (int) lens[i]);
+				__real_free(nm);
+				mt[i] = g->create("line");
+				g->append(&tmp, mt[i]);
+			}
+			for (i = 0; i < no; i++) g->clear(mt[order[i]]);
+			fputs("R ok items=", stdout);
+			span<const item<metatype> > its = g->items();
+			size_t shown = 0;
+			for (const item<metatype> *it = its.begin(); it != its.end(); ++it) {
+				if (!it->instance()) continue;
+				const char *nm = it->name();
+				size_t ln = RAWID(static_cast<const identifier *>(it))->_len;
+				if (shown++) fputc(',', stdout);
+				if (!nm || !ln) { fputs("!noname", stdout); continue; }
+				--ln;
+				size_t idx = ln ? (size_t) (unsigned char) nm[0] - 0x61 : 99, b;
+				if (!ln) { for (idx = 0; idx < nl; idx++) if (!lens[idx] && it->instance() == mt[idx]) break; }
+				for (b = 0; b < ln; b++) if ((unsigned char) nm[b] != 0x61 + idx) idx = 98;
+				if (nm[ln]) idx = 97;
+				printf("%zu:%zu", idx, ln);
+			}
+			if (!shown) fputc('-', stdout);
+			g->unref();
+			in_lib = -1;
+			printf(" leaked=%zu", reap(MAXID));
+			put_state();
+		}
+		else if (!strcmp(op, "free") && drv_nw == 3 && !parse_slot(drv_w[2], &k) && (groups[k] || arrays[k] || items[k])) {
 			/* the group/array is released: item destructor -> identifier::~identifier() */
 			drop_holder(k);
 			char buf[48];
